@@ -465,7 +465,7 @@ func checkHookSlotWriters(c *Ctx, p *Prog, R *BusRoles, rule string) {
 	}
 	slots := map[string]bool{R.BusBefore: true, R.BusAfter: true, R.BusBeforeCtx: true, R.BusAfterCtx: true}
 	n := 0
-	ix := newIPIndex(p)
+	_ = newIPIndex
 	direct := map[*ssa.Function]map[string]token.Pos{} // top-level function -> slots it stores (incl. its closures)
 	for _, f := range p.FuncsIn(PkgBus) {
 		for _, b := range f.Blocks {
@@ -503,6 +503,33 @@ func checkHookSlotWriters(c *Ctx, p *Prog, R *BusRoles, rule string) {
 					out[fld] = true
 				}
 			}
+			// setters handed on as function values (method expressions given to a generic
+			// option builder) count as called
+			for _, b := range g.Blocks {
+				for _, in := range b.Instrs {
+					for _, op := range in.Operands(nil) {
+						if op == nil || *op == nil {
+							continue
+						}
+						if fn, ok := (*op).(*ssa.Function); ok && PkgOf(fn) == PkgBus {
+							if o := fn.Origin(); o != nil {
+								fn = o
+							}
+							if fn.Synthetic != "" { // thunk / bound wrapper: what it forwards to
+								for _, h := range reachFuncs(p, fn, PkgBus) {
+									for fld := range written(outermost(h), seen) {
+										out[fld] = true
+									}
+								}
+								continue
+							}
+							for fld := range written(outermost(fn), seen) {
+								out[fld] = true
+							}
+						}
+					}
+				}
+			}
 		}
 		return out
 	}
@@ -535,12 +562,34 @@ func checkHookSlotWriters(c *Ctx, p *Prog, R *BusRoles, rule string) {
 			continue
 		}
 		for fld, pos := range flds {
-			ok := len(ix.callers[f]) > 0
-			for _, cs := range ix.callers[f] {
-				if want, isOwner := owner[outermost(cs.Parent()).Name()]; !isOwner || want != fld {
-					ok = false
+			// every call or mention (as a function value) of the helper sits in an owner of this slot
+			ok, uses := true, 0
+			for _, g := range p.FuncsIn(PkgBus) {
+				if outermost(g) == f || g.Synthetic != "" {
+					continue
+				}
+				for _, b := range g.Blocks {
+					for _, in := range b.Instrs {
+						for _, op := range in.Operands(nil) {
+							if op == nil || *op == nil {
+								continue
+							}
+							fn, isFn := (*op).(*ssa.Function)
+							if !isFn {
+								continue
+							}
+							if fn != f && !(fn.Synthetic != "" && callsOnly(fn, f)) {
+								continue
+							}
+							uses++
+							if want, isOwner := owner[outermost(g).Name()]; !isOwner || want != fld {
+								ok = false
+							}
+						}
+					}
 				}
 			}
+			ok = ok && uses > 0
 			c.Check(ok, rule, "hook-slot-writer/"+f.Name()+"/"+fld, p.Pos(pos), "helper called only by the owner(s) of this slot", f.Name()+" writes the "+fld+" hook slot: a hook installed by the user can be displaced")
 		}
 	}
